@@ -75,10 +75,12 @@ class Ctx:
         return vs
 
     def tree(self, v: Variant):
-        k = id(v)
-        if k not in self._trees:
-            self._trees[k] = self.parser.parse(tokenize(v.segs), v.label())
-        return self._trees[k]
+        # cached on the variant itself (ids of short-lived variants are reused by the allocator)
+        t = getattr(v, '_tree', None)
+        if t is None:
+            t = self.parser.parse(tokenize(v.segs), v.label())
+            v._tree = t
+        return t
 
     def run_lock(self, v: Variant, init_stack=None, supply=True):
         p = Path(init_stack or [], supply=supply)
